@@ -98,6 +98,36 @@ def parity(rep, rng, n):
                           dict(set=fs, which=which, kinematics=kw, model=m, value=v))
 
 
+def reuse_stream(rep, rng, n):
+    """a prepared point evaluated with one set of CFFs and then with another must give, for the second, what a
+    fresh copy of the point gives (the terms are functions of the CFF values and the kinematics only)"""
+    for i in range(n):
+        fs = rng.choice(B.FORMULA_SETS)
+        kw = B.random_kinematics(rng)
+        kw['in1polarization'] = rng.choice([-1, 1])
+        pt, kin = B.prepared(kw)
+        m1, m2 = B.random_m(rng), B.random_m(rng)
+        th1, th2 = B.theory(fs, m1), B.theory(fs, m2)
+        terms = ['TINTunp', 'TDVCS2unp', 'TBH2unp'] + (['TINTLP', 'TDVCS2LP'] if fs in B.LP_SETS else [])
+        try:
+            for tname in terms:
+                getattr(th1, tname)(kin)
+            second = {tname: float(getattr(th2, tname)(kin)) for tname in terms}
+            pt2, fresh = B.prepared(kw)
+            ref = {tname: float(getattr(th2, tname)(fresh)) for tname in terms}
+        except Exception as e:
+            rep.violation('reuse/exception/' + type(e).__name__, '%s raised %r' % (fs, e), dict(set=fs, kinematics=kw))
+            continue
+        rep.case('reuse', (fs, i), sample=dict(set=fs) if i < 2 else None)
+        for tname in terms:
+            if second[tname] != ref[tname]:
+                rep.violation('reuse/%s/%s' % (fs, tname),
+                              '%s.%s on a prepared point that had been evaluated with other CFF values before gives %r, on a fresh '
+                              'copy of the point %r' % (fs, tname, second[tname], ref[tname]),
+                              dict(set=fs, term=tname, kinematics=kw, first_model=m1, second_model=m2))
+                break
+
+
 def run(rep):
     rng = rep.rng
     ok, why = common.lean_side(rep, 'C06')
@@ -105,6 +135,7 @@ def run(rep):
     broken = B.entry_correspondence(rep, rng, 60 if quick else 1500)
     nversion(rep, rng, (15 if quick else 600) * (3 if (broken or not ok) else 1))
     parity(rep, rng, 60 if quick else 2000)
+    reuse_stream(rep, rng, 25 if quick else 600)
     for kind, fset, e, v, o, kw, m in broken[:5]:
         if not rep.violations:
             rep.violation('model/%s/%s/%s' % (kind, fset, e), 'translated model and code disagree on %s.%s: code %r model %r' % (fset, e, v, o),
